@@ -653,18 +653,31 @@ func xtGen(rng *rand.Rand, n int, emit func(string)) {
 	emit("reset")
 	var xs, ss []xtGenProxy
 	allows := []string{"-", "ub", "*", "ub,uc", "uc", "ua,ub"}
+	// the same list as it may stand in a configuration file: entries repeated, in any order (C08.allowed_perm_dedup:
+	// the meaning is the same)
+	shape := func(a string) string {
+		if a == "-" || rng.Intn(2) == 0 {
+			return a
+		}
+		l := strings.Split(a, ",")
+		for k := 1 + rng.Intn(2); k > 0; k-- {
+			l = append(l, pick(rng, l))
+		}
+		rng.Shuffle(len(l), func(i, j int) { l[i], l[j] = l[j], l[i] })
+		return strings.Join(l, ",")
+	}
 	k := 0
 	for e := 0; e < 2; e++ {
 		for c := 0; c < 2; c++ {
 			for j := 0; j < 2; j++ {
-				a := allows[(k+rng.Intn(2)*3)%len(allows)]
+				a := shape(allows[(k+rng.Intn(2)*3)%len(allows)])
 				xs = append(xs, xtGenProxy{name: fmt.Sprintf("x%d%d%c", e, c, 'a'+j), kind: "xtcp", allow: a, enc: e, comp: c})
 				k++
 			}
 		}
 	}
 	for j, a := range []string{"*", "-", "ub,uc"} {
-		ss = append(ss, xtGenProxy{name: fmt.Sprintf("s%d", j), kind: "stcp", allow: a, enc: rng.Intn(2), comp: rng.Intn(2)})
+		ss = append(ss, xtGenProxy{name: fmt.Sprintf("s%d", j), kind: "stcp", allow: shape(a), enc: rng.Intn(2), comp: rng.Intn(2)})
 	}
 	for _, p := range append(append([]xtGenProxy{}, xs...), ss...) {
 		// printable keys: a key travels as a JSON string in NewProxy (bytes that are not UTF-8 would be replaced there)
@@ -675,7 +688,7 @@ func xtGen(rng *rand.Rand, n int, emit func(string)) {
 		emit(fmt.Sprintf("own name=%s kind=%s sk=%s allow=%s enc=%d comp=%d", p.name, p.kind, hx(string(sk)), p.allow, p.enc, p.comp))
 	}
 	emit("up")
-	users := []string{"ua", "ub", "uc"}
+	users := []string{"ua", "ub", "uc", "ub", "uc", ""} // "" = a frpc that configured no user
 	type scn struct {
 		id        string
 		class     byte
